@@ -357,7 +357,11 @@ func ProofAuthenticate(cfg ProofConfig, inner AuthenticateFunc) (AuthenticateFun
 	}
 	var cache *nonceCache
 	if !cfg.DisableReplayCache {
-		cache = newNonceCache(time.Duration(cfg.SkewSeconds)*time.Second, capacity, cfg.Now)
+		// A proof stamped up to skew seconds ahead of this worker's clock stays
+		// inside the acceptance window for 2*skew seconds, and the window is
+		// evaluated on whole seconds, so a nonce must be remembered for
+		// 2*skew+1 seconds to outlive every timestamp it was accepted with.
+		cache = newNonceCache(time.Duration(2*cfg.SkewSeconds+1)*time.Second, capacity, cfg.Now)
 	}
 	required := cfg.Mode == ProofModeRequire
 	local := cfg
